@@ -215,7 +215,7 @@ def gen(r, focus, tier="quick"):
         # thousands of idle ticks before anything arrives (and before the fault): whatever a tick does to an empty pool
         # accumulates first
         gap = r.choice([1000, 1000, 5000, 20000])
-        if focus in ("C03", "C04") and r.random() < 0.35:
+        if focus in ("C03", "C04") and r.random() < (0.35 if tier == "quick" else 0.05):
             gap = 100000 - r.randint(1, max(2, T // 2))      # the busy part of the run straddles tick 100 000
         for p_ in pipes:
             p_["at"] += gap
